@@ -2,6 +2,7 @@
 from __future__ import annotations
 
 import numpy as np
+import z3
 
 from .common import *  # noqa: F401,F403
 from .common import (Check, OracleFailure, SymEnv, RealEnv, both, sym_pixels, pixels_from_inputs, scratch_file, symcooler)
@@ -22,6 +23,9 @@ def unordered_sym(p):
     R = sum(Ks)
     buf = sym_int("mergebuf", 1, R + 1)
     mm = sym_int("max_merge", 1, len(Ks) + 1)
+    if p.get("two_pass_only"):
+        # many chunks: only the recursive merge is of interest here, with a buffer that holds everything
+        CTX.add(z3.And(mm.e < len(Ks), buf.e == R + 1))
     fl = p.get("float_counts")
     if fl:
         from engine.symcore import SReal
@@ -120,6 +124,10 @@ def _cases(tier):
             out.append(dict(layout=list(layout), kind=kind, Ks=list(Ks), upper=upper))
     # a user dtype for the value column (float with fractional values) must survive both merge passes
     out.append(dict(layout=[2], kind="fixed", Ks=[1, 1, 1], upper=True, float_counts=True))
+    # chunk counts that are not a multiple of their integer square root: the two-pass grouping must still cover the last chunks
+    out.append(dict(layout=[2], kind="fixed", Ks=[1, 1, 1, 1, 1], upper=True, two_pass_only=True))
+    if tier != "quick":
+        out.append(dict(layout=[2], kind="fixed", Ks=[1, 0, 1, 1, 1, 1, 1], upper=True, two_pass_only=True))
     # "or sorting requested": chunks in arbitrary internal order with ensure_sorted=True, as dicts and as frames with permuted labels
     out.append(dict(layout=[2], kind="fixed", Ks=[2, 2], upper=True, ensure_sorted=True))
     out.append(dict(layout=[2], kind="fixed", Ks=[3, 1], upper=True, ensure_sorted=True, frames=True))
